@@ -54,7 +54,6 @@ type identSite struct {
 	pf     string // ParentKind.Field
 }
 
-
 // identSites: every *ast.Ident reachable through Node-typed fields, with its parent and field
 // name (reflection; independent of dst's generated decorator). File.Imports / Unresolved /
 // Comments and Doc / Comment groups are not syntactic children.
